@@ -137,7 +137,7 @@ PUBLISH = dict(sub="publish", mode="publish", family="publish", shards=q(4, 16),
 
 
 def c15(prop, tier, res, replay=None):
-    return pure.check_cases(prop, tier, res, [PUBLISH, OPFRONT], [
+    return pure.check_cases(prop, tier, res, [PUBLISH, OPFRONT, RELOAD_SWEEPS], SWEEP_ASSUME + [
         "publishes are also entered through the other front ends (MCP tools on a SQLite file and in admin-proxy mode over TCP, Admin API on memory and SQLite, global and endpoint-scoped paths) and judged item by item against what was published (driver mode opfront)",
         "modelled: the global direct path POST /messages/publish (three validation passes + one EnqueueBatch against the queue model, with the implementation's eviction choice) and the endpoint-scoped path (Model/PublishScoped: scoped switch, endpoint resolution, audit with actor policy, route policy, parse loop, selector hints, target, envelope, stored ids, one EnqueueBatch); both are compared step by step and judged by spec-level predicates that do not depend on the handler's check order",
         "not modelled (answer before the modelled path): global_publish_disabled, audit header policy, JSON decoding errors and body-size limit, management-model cross checks (SourceMismatch, fail-closed resolver), a LookupMessages error, the non-batch fallback loop for stores without EnqueueBatch (every shipped store has it)",
